@@ -271,3 +271,83 @@ func VH_C05_Thresholds() {
 	vhAssert(uint32(float64(T)*1.5) == T+T/2, "uint32(float64(T)*1.5) == T + T/2 for every legal T")
 	vhReach("thresholds-done")
 }
+
+// Positional routing inside an index slab (the function every Get / Set /
+// Insert / Remove descends through): for a slab with 2..40 children (both the
+// linear scan used for few children and the binary search used from 32
+// children on), symbolic child counts and ANY index, the returned child is the
+// one whose cumulative range contains the index, the returned header slot is
+// that child's, and the adjusted index is the position inside it; an index at
+// or beyond the total is rejected. Map index slabs route by first digest in the
+// same way (symbolic ascending digests, any looked-up digest).
+//
+//vh:prop C05 C01 C02
+//vh:param maxchildren 34 40
+func VH_C05_IndexRouting() {
+	vhSetThreshold(1024)
+	maxc := vhParam("maxchildren", 34)
+	sizes := []int{2, 3, 31, 32, 33, maxc}
+	n := sizes[vhChoose("nchildren", len(sizes))]
+	if vhChoose("kind", 2) == 0 {
+		m := &ArrayMetaDataSlab{header: ArraySlabHeader{slabID: vhSlabID(1, 1)}}
+		total := uint32(0)
+		for i := 0; i < n; i++ {
+			c := vhRange32("cnt", 1, 1000)
+			total += c
+			m.childrenHeaders = append(m.childrenHeaders, ArraySlabHeader{slabID: vhSlabID(2, byte(i+1)), size: 200, count: c})
+			m.childrenCountSum = append(m.childrenCountSum, total)
+		}
+		m.header.count = total
+		idx := vhRange("index", 0, 100000)
+		slot, adj, id, err := m.childSlabIndexInfo(idx)
+		if idx >= uint64(total) {
+			vhAssert(err != nil, "index beyond the total is rejected")
+			vhReach("routing-done")
+			return
+		}
+		vhAssert(err == nil, "in-range index is routed")
+		if err != nil {
+			return
+		}
+		vhAssert(slot >= 0 && slot < n, "slot in range")
+		if slot < 0 || slot >= n {
+			return
+		}
+		lo := uint64(0)
+		if slot > 0 {
+			lo = uint64(m.childrenCountSum[slot-1])
+		}
+		hi := uint64(m.childrenCountSum[slot])
+		vhAssert(lo <= idx && idx < hi, "the child's cumulative range contains the index")
+		vhAssert(adj == idx-lo, "adjusted index is the position inside the child")
+		vhAssert(id == m.childrenHeaders[slot].slabID, "returned identifier is that child's")
+	} else {
+		m := &MapMetaDataSlab{header: MapSlabHeader{slabID: vhSlabID(1, 1)}}
+		for i := 0; i < n; i++ {
+			// ascending first digests in disjoint windows
+			fk := vhRange("fk", uint64(i)*1000+1, uint64(i)*1000+999)
+			m.childrenHeaders = append(m.childrenHeaders, MapSlabHeader{slabID: vhSlabID(2, byte(i+1)), size: 200, firstKey: Digest(fk)})
+		}
+		m.header.firstKey = m.childrenHeaders[0].firstKey
+		d := vhRange("digest", 0, uint64(n)*1000+500)
+		// the child that must be searched: the last one whose first digest is <= d (the first child for smaller digests)
+		want := 0
+		for i := 1; i < n; i++ {
+			if uint64(m.childrenHeaders[i].firstKey) <= d {
+				want = i
+			}
+		}
+		storage := vhNewBasicStorage()
+		for _, h := range m.childrenHeaders {
+			_ = storage.Store(h.slabID, &MapDataSlab{header: h, elements: newHkeyElements(0)})
+		}
+		_, got, err := m.getChildSlabByDigest(storage, Digest(d), vKey{id: 1})
+		if d < uint64(m.childrenHeaders[0].firstKey) {
+			vhAssert(vhIsKeyNotFound(err), "a digest below every child is not found")
+		} else {
+			vhAssert(err == nil, "digest routed")
+			vhAssert(got == want, "lookup descends into the last child whose first digest is not above the digest")
+		}
+	}
+	vhReach("routing-done")
+}
